@@ -27,7 +27,7 @@ GetRefusedE == GetRefused
 PostE(t, k, g) == EnvOK(t, k, g) /\ PostLookup(t, k, g)
 ReleaseE(p) == Release(p)
 EndSlowE(p) == EndSlow(p)
-ReadE(s) == Read(s)
+ReadE(s) == eofs[s] < 2 /\ Read(s)     \* (bound on the EOF counter)
 SendE(s) == Send(s)
 DisconnectE(s) == Disconnect(s)
 CloseE(s) == Close(s)
@@ -55,7 +55,7 @@ GetRefusedS == Settled /\ GetRefused
 PostS(t, k, g) == Settled /\ EnvOK(t, k, g) /\ PostLookup(t, k, g)
 ReleaseS(p) == Settled /\ Release(p)
 EndSlowS(p) == Settled /\ EndSlow(p)
-ReadS(s) == Settled /\ Read(s)
+ReadS(s) == Settled /\ eofs[s] < 2 /\ Read(s)
 SendS(s) == Settled /\ Send(s)
 DisconnectS(s) == Settled /\ Disconnect(s)
 CloseS(s) == Settled /\ Close(s)
@@ -75,6 +75,13 @@ SettledNext ==
   \/ \E s \in Sess : DisconnectS(s)
   \/ \E s \in Sess : CloseS(s)
 SettledSpec == Init /\ [][SettledNext]_vars
+
+\* view of the cover graph: outputs (got, out, results of Writes) and ghosts are hidden, a POST that is
+\* over and whose message is nowhere any more is just "done" - none of this affects what is enabled
+InPlay(p) == post[p].ph # "done" \/ \E s \in Sess : p \in Range(q[s]) \/ p \in hand[s]
+CoverView == <<nopen, tab, st, get, reading, q, hand, ended \cap {p \in Posts : InPlay(p)},
+               [s \in Sess |-> Len(sres[s])], [s \in Sess |-> eofs[s]],
+               [p \in Posts |-> IF InPlay(p) THEN post[p] ELSE [NewPost EXCEPT !.ph = "done"]]>>
 
 \* reachability witnesses (each must be VIOLATED, otherwise the model is vacuous)
 NeverDraining   == ~(\E s \in Sess : get[s] = "cancelled" /\ st[s] = "open" /\ hand[s] # {} /\ Settled)
